@@ -643,7 +643,8 @@ impl CanonicalizeContext {
 				"mmultiscripts" => {
 					let has_prescripts = mathml.children().iter()
 							.any(|&child| name(&as_element(child)) == "mprescripts");
-					if n_children == 0 || (has_prescripts ^ (n_children % 2 == 0)) {
+					if n_children == 0 || (has_prescripts ^ (n_children % 2 == 0)) ||
+					   name(&as_element(mathml.children()[0])) == "mprescripts" {		// the first child is the base
 						bail!("{} has the wrong number of children:\n{}", element_name, mml_to_string(&mathml));
 					}
 				},
@@ -663,7 +664,8 @@ impl CanonicalizeContext {
 				// get_presentation_element() asserts that a MathML-Presentation annotation has exactly one child
 				for child in &children {
 					let child = as_element(*child);
-					if child.attribute_value("encoding") == Some("MathML-Presentation") && child.children().len() != 1 {
+					if child.attribute_value("encoding") == Some("MathML-Presentation") &&
+					   (name(&child) != "annotation-xml" || child.children().len() != 1 || child.children()[0].element().is_none()) {
 						bail!("'{}' with encoding 'MathML-Presentation' should have one child:\n{}", name(&child), mml_to_string(&mathml));
 					}
 				}
